@@ -8,6 +8,8 @@
 //	               kill-async  SIGKILL from the parent, a seeded delay after the child's n-th hook event,
 //	                           while the plot keeps running (lands mid-sweep / mid-write / mid-fsync)
 //	               stop        graceful StopPlot() issued when a hook point is reached, then Close
+//	               stop-late   graceful StopPlot() a seeded delay after a window start, the plot not held up: the
+//	                           request lands inside the sweep or the block-wise window write
 //	               single and repeated (up to 4 in a row), every run with a window size (H1) different
 //	               from the previous run's: one window, exact multiples, odd record counts, sizes that the
 //	               record size does not divide, minimal windows.
@@ -300,6 +302,26 @@ func buildCases(seed int64, thorough bool) []caseSpec {
 		after := pickOther(r, cfgs, &before, false)
 		add(caseSpec{Family: "async", BL: bl, Key: r.Intn(nKeys), Runs: []runSpec{
 			rsOf(before, &intr{Kind: "kill-async", Point: "async", Occ: 1 + r.Intn(total-2), DelayUs: r.Intn(1500)}), rsOf(after, nil)}})
+	}
+	// family "stop-late": a graceful stop that arrives INSIDE a window (after the sweep's stop poll: at these bit
+	// lengths the sweep polls only at its first value, so the request is seen by the block-wise window write)
+	nLate := 36
+	if thorough {
+		nLate = 900
+	}
+	for i := 0; i < nLate; i++ {
+		r := root.Derive("stop-late", i)
+		bl := bls[len(bls)-1-i%2] // the larger bit lengths: a window takes long enough to be hit
+		cfgs := windowCfgs(bl, r)
+		before := pickOther(r, cfgs, nil, i%3 != 0)
+		nA, nB := windowsOf(bl, before)
+		pt, n := "plot.A.windowStart", nA
+		if i%3 == 2 {
+			pt, n = "plot.B.windowStart", nB
+		}
+		after := pickOther(r, cfgs, &before, false)
+		add(caseSpec{Family: "stop-late", BL: bl, Key: r.Intn(nKeys), Runs: []runSpec{
+			rsOf(before, &intr{Kind: "stop-late", Point: pt, Occ: 1 + r.Intn(n), DelayUs: 20 + r.Intn(1200)}), rsOf(after, nil)}})
 	}
 	// family "repeated": 2..4 interruptions in a row, each resume with another window size
 	for i := 0; i < nRep; i++ {
